@@ -1019,6 +1019,10 @@ def buf_method(ctx, r, s, name, args, kwargs):
 
 
 def wseq_method(ctx, r, s, name, args, kwargs):
+    if name == "reverse":
+        rev = ctx.st(wseq_reversed(ctx, r))      # in place: the SAME list object now holds the reversed window
+        s["arrs"] = rev["arrs"]
+        return None
     if name == "append":
         wseq_store(ctx, s, s["hi"], args[0])
         s["hi"] = s["hi"] + 1
